@@ -4,6 +4,7 @@ sys.path.insert(0, os.path.dirname(os.path.dirname(os.path.abspath(__file__))))
 from engine import build, runner
 from engine.common import Check
 from engine.prog import Prog
+from engine.bfs import emit_std
 from engine.model import data as D
 
 TYPES = [D.NC_INT, D.NC_SHORT, D.NC_DOUBLE, D.NC_BYTE, D.NC_FLOAT, D.NC_CHAR]
@@ -20,7 +21,7 @@ def schema(k, sizes):
 
 
 SETTINGS = ['dataset_before', 'dataset_between', 'dataset_after', 'pervar', 'pervar_value', 'attr', 'dataset_then_nofill', 'none']
-FOLLOW = ['none', 'partial', 'redef_add', 'fill_rec', 'redef_twice']
+FOLLOW = ['none', 'partial', 'redef_add', 'fill_rec', 'redef_twice', 'indep_redef']
 
 
 def define(p, dims, vars_, setting):
@@ -80,7 +81,17 @@ def gen(fmts, nps, sizes_list, settings, follows, ks):
             # then overwrite part of a filled record: the rest of the record keeps the fill
             partial_writes(p, 3)
             p.read_all('after writing into filled records')
-        if fol in ('redef_add', 'redef_twice'):
+        if fol == 'indep_redef':
+            # independent data mode: rank k writes record k only, so the in-memory record counts differ between the processes;
+            # then redefine directly from independent mode: the new fill-mode record variable must be filled for *all* records
+            rv = next(v for v in range(len(p.m.vars)) if p.m.isrec(v))
+            p.do(dict(op='begin_indep'))
+            sh = p.m.shape(rv); t = p.m.vars[rv]['xtype']; inner = p.m.inner(rv)
+            for rank in range(np):
+                o = dict(op='put', v=rv, start=[rank] + [0] * (len(sh) - 1), count=[1] + sh[1:], vals=[(rank * 5 + j) % 40 + 50 for j in range(inner)], coll=0, mem=memof(t))
+                rcs, st = p.m.apply(o); assert 0 in rcs; p.m = st
+                p.rc_lines.append((emit_std(p.case, rank, o, None), 0))
+        if fol in ('redef_add', 'redef_twice', 'indep_redef'):
             for rep in range(2 if fol == 'redef_twice' else 1):
                 p.do(dict(op='redef'))
                 nv = len(p.m.vars)
@@ -123,7 +134,7 @@ def main(tier=None):
     if thorough:
         progs = gen((1, 2, 5), (1, 2, 3, 4), [(1, 3), (3, 5), (5, 7), (7, 1)], SETTINGS, FOLLOW, range(6))
     else:
-        progs = gen((1,), (1, 3), [(3, 5)], SETTINGS, FOLLOW, (0, 1, 4)) + gen((5,), (2, 4), [(7, 1), (5, 7)], SETTINGS[:6], ['redef_add', 'fill_rec'], (2, 3))
+        progs = gen((1,), (1, 3), [(3, 5)], SETTINGS, FOLLOW, (0, 1, 4)) + gen((5,), (2, 4), [(7, 1), (5, 7)], SETTINGS[:6], ['redef_add', 'fill_rec', 'indep_redef'], (2, 3))
     progs += gen_rules()
     results = runner.run_cases(b['vx'], [p.case for p in progs], batch=40)
     for p, r in zip(progs, results):
@@ -137,7 +148,7 @@ def main(tier=None):
     ck.cov['distinct_nontrivial'] = len(ck.outcomes)
     ck.cov['rule'] = ('schemas of 3-4 variables (fixed/record, 6 external types, element counts 1,3,5,7 so that the per-process shares are uneven) x fill setting {set_fill before/between/after the definitions, def_var_fill with and '
                       'without value on a subset, _FillValue attribute put directly, dataset fill with one explicit no_fill variable, none} x np 1-4 x follow-up {none, partial writes, redefinition adding a fixed and a record '
-                      'variable with 1-3 records present (once/twice), fill_var_rec + writes into filled records}; every variable is read back on every rank after each step and the decoded file is compared; distinct_nontrivial = distinct read-back vectors')
+                      'variable with 1-3 records present (once/twice), fill_var_rec + writes into filled records, independent-mode writes of a different number of records per process followed by a redefinition entered directly from independent mode}; every variable is read back on every rank after each step and the decoded file is compared; distinct_nontrivial = distinct read-back vectors')
     ck.sample(progs[0].case.text()[:1500]); ck.sample(progs[len(progs) // 2].case.text()[:1800])
     ck.assumptions += ['records created implicitly by writing a higher record are undefined content and never compared']
     runner.cleanup()
